@@ -238,8 +238,17 @@ Definition rlp := lp dy.
 Definition qlp := lp Q.
 Definition rapply : prim dy -> rlp -> rlp := papply dzero dneg dnz dinf.
 Definition qapply : prim Q -> qlp -> qlp := papply qzero Qopp qnz (d2q dinf).
-Definition rapplys (ps : list (prim dy)) (l : rlp) : rlp := fold_left (fun l p => rapply p l) ps l.
-Definition qapplys (ps : list (prim Q)) (l : qlp) : qlp := fold_left (fun l p => qapply p l) ps l.
+(* the same calls where the vectors reach doAddRow(s) / doAddCol(s) with their zero entries still in place, so that
+   every index counts for the implicit creation of columns / rows:
+   - the rational LP in addRowRational / addColRational(const mpq_t* ...): the loop runs over the caller's arrays;
+   - the real LP in addRowsRational / addColsRational(const LPRowSetRational& / LPColSetRational&): the converted set
+     keeps entries whose double image is 0.0 *)
+Definition rapply_all : prim dy -> rlp -> rlp := papply dzero dneg (fun _ => true) dinf.
+Definition qapply_all : prim Q -> qlp -> qlp := papply qzero Qopp (fun _ => true) (d2q dinf).
+Definition applys {T} (ap : prim T -> lp T -> lp T) (ps : list (prim T)) (l : lp T) : lp T :=
+  fold_left (fun l p => ap p l) ps l.
+Definition rapplys := applys rapply.
+Definition qapplys := applys qapply.
 
 (* ========================================================================= type arrays (_rowTypes, _colTypes) *)
 Definition class_rows (inf : Q) (q : qlp) : list rtype := map2 (classQ inf) (lhs q) (rhs q).
@@ -294,7 +303,7 @@ Inductive rop :=
    The GMP variants of changeLhs/Range/Lower/Upper/Bounds/Obj and addRow read the value back from the rational LP
    before rounding it, which is the value just written: they are the same transition as the Rational& variant. *)
 Inductive qop :=
-| QAddRow (r : rowspec Q) | QAddRows (g : bool) (rs : list (rowspec Q))
+| QAddRow (g : bool) (r : rowspec Q) | QAddRows (g : bool) (rs : list (rowspec Q))
 | QAddCol (g : bool) (c : colspec Q) | QAddCols (g : bool) (cs : list (colspec Q))
 | QChgRow (i : nat) (r : rowspec Q) | QChgCol (j : nat) (c : colspec Q)
 | QLhs (i : nat) (x : Q) | QLhsV (xs : list Q) | QRhs (i : nat) (x : Q) | QRhsV (xs : list Q)
@@ -408,7 +417,7 @@ Section Model.
     else (if keep_q e x then x else qzero).                      (* isNotZero(val, epsilon) *)
   Definition qprims (e : dy) (m n : nat) (q : qlp) (o : qop) : list (prim Q) :=
     match o with
-    | QAddRow r => [PAddRow r] | QAddRows _ rs => map PAddRow rs
+    | QAddRow _ r => [PAddRow r] | QAddRows _ rs => map PAddRow rs
     | QAddCol _ c => [PAddCol c] | QAddCols _ cs => map PAddCol cs
     | QChgRow i r => [PChgRow i r] | QChgCol j c => [PChgCol j c]
     | QLhs i x => [PLhs i x] | QLhsV xs => [PLhsV xs] | QRhs i x => [PRhs i x] | QRhsV xs => [PRhsV xs]
@@ -426,7 +435,7 @@ Section Model.
     end.
   Definition qtyupd (inf : Q) (m n : nat) (o : qop) : tyupd :=
     match o with
-    | QAddRow _ | QAddRows _ _ | QAddCol _ _ | QAddCols _ _ => TComplete
+    | QAddRow _ _ | QAddRows _ _ | QAddCol _ _ | QAddCols _ _ => TComplete
     (* changeRowRational / changeColRational: tys[i] = _rangeTypeRational(lprow.lhs(), lprow.rhs()); complete *)
     | QChgRow i (a, b, _) => TRowSet i (classQ inf a b)
     | QChgCol j (_, a, b, _) => TColSet j (classQ inf a b)
@@ -445,6 +454,10 @@ Section Model.
 
   (* ... and, in SYNCMODE_AUTO, the calls on the real LP with the rounded arguments.  [q'] is the rational LP after
      the call, [pm] the OBJSENSE parameter *)
+  (* DSVectorRational::add drops exact zeros *)
+  Definition sclean_q (v : svec Q) : svec Q := filter (fun p => qnz (snd p)) v.
+  Definition rs_clean (r : rowspec Q) : rowspec Q := let '(a, b, v) := r in (a, b, sclean_q v).
+  Definition cs_clean (c : colspec Q) : colspec Q := let '(o, a, b, v) := c in (o, a, b, sclean_q v).
   Definition rs_rnd (r : rowspec Q) : rowspec dy := let '(a, b, v) := r in (rnd RConv a, rnd RConv b, svec_map (rnd RConv) v).
   Definition cs_rnd (c : colspec Q) : colspec dy :=
     let '(o, a, b, v) := c in (rnd RConv o, rnd RConv a, rnd RConv b, svec_map (rnd RConv) v).
@@ -455,8 +468,11 @@ Section Model.
     (sgn dneg pm (rnd RConv (sgn Qopp qmax o)), rnd RConv a, rnd RConv b, svec_map (rnd RConv) v).
   Definition qrprims (e : dy) (m n : nat) (q' : qlp) (pm : bool) (o : qop) : list (prim dy) :=
     match o with
-    | QAddRow r => [PAddRow (rs_rnd r)] | QAddRows _ rs => map (fun r => PAddRow (rs_rnd r)) rs
-    | QAddCol false c => [PAddCol (cs_rnd c)] | QAddCols false cs => map (fun c => PAddCol (cs_rnd c)) cs
+    | QAddRow _ r => [PAddRow (rs_rnd r)]
+    | QAddRows true rs => map (fun r => PAddRow (rs_rnd r)) rs
+    | QAddRows false rs => map (fun r => PAddRow (rs_rnd (rs_clean r))) rs
+    | QAddCol false c => [PAddCol (cs_rnd c)]
+    | QAddCols false cs => map (fun c => PAddCol (cs_rnd (cs_clean c))) cs
     | QAddCol true c => [PAddCol (cs_rnd_g (lmax q') pm c)]
     | QAddCols true cs => map (fun c => PAddCol (cs_rnd_g (lmax q') pm c)) cs
     | QChgRow i r => [PChgRow i (rs_rnd r)] | QChgCol j c => [PChgCol j (cs_rnd c)]
@@ -488,6 +504,11 @@ Section Model.
     | None => s
     end.
 
+  Definition qap_of (o : qop) : prim Q -> qlp -> qlp :=
+    match o with QAddRow true _ | QAddCol true _ => qapply_all | _ => qapply end.
+  Definition rap_of (o : qop) : prim dy -> rlp -> rlp :=
+    match o with QAddRows false _ | QAddCols false _ => rapply_all | _ => rapply end.
+
   Definition with_lps (s : state) (r : rlp) (q : option qlp) (t : list rtype * list rtype) : state :=
     mkSt r q (fst t) (snd t) (mode s) (pinf s) (pmax s) (eps s).
 
@@ -517,10 +538,10 @@ Section Model.
       | OnlyReal, None => s
       | md, Some q =>
         let m := nrows q in let n := ncols q in
-        let q' := qapplys (qprims (eps s) m n q qo) q in
+        let q' := applys (qap_of qo) (qprims (eps s) m n q qo) q in
         let t' := ty_apply inf q' (qtyupd inf m n qo) (rty s, cty s) in
         match md with
-        | Auto => with_lps s (rapplys (qrprims (eps s) m n q' (pmax s) qo) (rl s)) (Some q') t'
+        | Auto => with_lps s (applys (rap_of qo) (qrprims (eps s) m n q' (pmax s) qo) (rl s)) (Some q') t'
         | _ => with_lps s (rl s) (Some q') t'
         end
       | _, None => s
@@ -568,13 +589,13 @@ Section Model.
     | _ => true
     end.
   (* every primitive call of a sequence is in the domain of the LP it meets *)
-  Fixpoint prims_ok {T} (tz : T) (tneg : T -> T) (tnz : T -> bool) (tinf : T) (ps : list (prim T)) (l : lp T) : bool :=
+  Fixpoint prims_ok {T} (ap : prim T -> lp T -> lp T) (ps : list (prim T)) (l : lp T) : bool :=
     match ps with
     | [] => true
-    | p :: t => prim_ok (nrows l) (ncols l) p && prims_ok tz tneg tnz tinf t (papply tz tneg tnz tinf p l)
+    | p :: t => prim_ok (nrows l) (ncols l) p && prims_ok ap t (ap p l)
     end.
-  Definition rprims_ok := prims_ok dzero dneg dnz dinf.
-  Definition qprims_ok := prims_ok qzero Qopp qnz (d2q dinf).
+  Definition rprims_ok := prims_ok rapply.
+  Definition qprims_ok := prims_ok qapply.
 
   (* the GMP array entry points addRowsRational / addColsRational cannot create columns / rows implicitly *)
   Definition no_growth (g : bool) (bound : nat) (v : svec Q) : bool :=
@@ -604,7 +625,7 @@ Section Model.
       | md, Some q =>
         let m := nrows q in let n := ncols q in
         let ps := qprims (eps s) m n q qo in
-        qprims_ok ps q &&
+        prims_ok (qap_of qo) ps q &&
         match qo with
         | QAddRows g rs => forallb (fun r => no_growth g n (snd r)) rs
         | QAddCols g cs => forallb (fun c => no_growth g m (snd c)) cs
@@ -614,7 +635,7 @@ Section Model.
         | _ => true
         end &&
         match md with
-        | Auto => rprims_ok (qrprims (eps s) m n (qapplys ps q) (pmax s) qo) (rl s)
+        | Auto => prims_ok (rap_of qo) (qrprims (eps s) m n (applys (qap_of qo) ps q) (pmax s) qo) (rl s)
         | _ => true
         end
       end
